@@ -1,5 +1,140 @@
-(* placeholder while the proofs are being written *)
-From Clip Require Import base.Geom model.Minkowski.
-Theorem C19_empty_tmp : forall pth s c, minkowski [] pth s c = MOk [].
-Proof. reflexivity. Qed.
-Print Assumptions C19_empty_tmp.
+(* C19 -- Minkowski sum and difference are the swept pattern.
+
+   All theorems are about model/Minkowski.v, the complete executable model of detail::Minkowski
+   (clipper.minkowski.h 20-72) and of the Area<int64_t>/IsPositive it calls, tied to the C++ by exact equality
+   of the quads (same order, same orientation) on every generated case (checks/C19.py).
+
+     [minkowski pat pth isSum isClosed]   the model; [MOk quads] or an error (out-of-bounds read / fuel)
+     [para_quads isSum closed pat pth]    the property's parallelograms
+                                          [ [a+b; a'+b; a'+b'; a+b'] | (a,a') <- path_edges closed pth, (b,b') <- cyc_edges_last pat ]
+                                          (with - instead of + for the difference), in the code's order
+     [path_edges closed pth]              consecutive path points, preceded by the closing pair (last,first) iff closed
+     [cyc_edges_last pat]                 (p_{n-1},p_0),(p_0,p_1),...: the cyclic pattern edges, closing edge first
+     [orient4 q]                          q, or [rev q] when the binary64 Area of q is negative
+
+   PROVED for all inputs: the quads are exactly these parallelograms up to per-quad reversal; no error.
+   PROVED for |coordinates| <= 2^24: the reversal test is exact, every emitted quad has exact area >= 0
+   (and this fails at 2^27: thin quads, witness below).
+   NOT PROVED ([C19_minkowski_partial]): that detail::Union -- Clipper64 with FillRule::NonZero -- of these quads
+   is their union within 2 units.  That step is validated by the sampled checker [check_minkowski], extracted from
+   Coq and sound by [C19_checker_sound]: if it reports no failure then at every sample point farther than the
+   tolerance from every parallelogram edge the result's net winding is 1 inside some parallelogram and 0 outside all. *)
+From Clip Require Import base.Geom base.FloatModel base.Winding base.Dist model.Minkowski proofs.Minkowski.
+From Coq Require Import ZArith List Permutation.
+Import ListNotations.
+Local Open Scope Z_scope.
+
+(* the list of quads the model builds equals, up to per-quad reversal, the specification's list, in the code's order *)
+Theorem C19_quads_spec :
+  forall pat pth isSum isClosed,
+  exists quads, minkowski pat pth isSum isClosed = MOk quads
+    /\ quads = map orient4 (para_quads isSum isClosed pat pth)
+    /\ Forall2 (fun q s => q = s \/ q = rev s) quads (para_quads isSum isClosed pat pth)
+    /\ length quads = (length (path_edges isClosed pth) * length (cyc_edges_last pat))%nat.
+Proof. exact minkowski_quads_spec. Qed.
+Print Assumptions C19_quads_spec.
+
+(* the path edges are the pairs of consecutive path points, plus the closing pair iff closed *)
+Theorem C19_path_edges :
+  forall isClosed pth e d,
+  In e (path_edges isClosed pth) ->
+  (exists i, nth_error pth i = Some (fst e) /\ nth_error pth (S i) = Some (snd e))
+  \/ (isClosed = true /\ pth <> [] /\ e = (last pth d, hd d pth)).
+Proof. exact path_edges_consecutive. Qed.
+Print Assumptions C19_path_edges.
+
+(* the pattern edges in the code's order are the cyclic edges of base/Geom.v (rotated by one) *)
+Theorem C19_pattern_edges_cyclic : forall pat, Permutation (cyc_edges_last pat) (cyc_edges pat).
+Proof. exact cyc_edges_last_perm. Qed.
+Print Assumptions C19_pattern_edges_cyclic.
+
+(* every specified quad is the parallelogram spanned by a path edge a->a' and a pattern edge b->b':
+   corners a(+|-)b, a'(+|-)b, a'(+|-)b', a(+|-)b'; opposite sides equal a'-a and +-(b'-b); twice its area is the
+   cross product of the two edge vectors *)
+Theorem C19_quad_is_parallelogram :
+  forall isSum isClosed pat pth q,
+  In q (para_quads isSum isClosed pat pth) ->
+  exists a a' b b',
+    In (a, a') (path_edges isClosed pth) /\ In (b, b') (cyc_edges_last pat) /\
+    q = [mop isSum a b; mop isSum a' b; mop isSum a' b'; mop isSum a b'] /\
+    psub (mop isSum a' b) (mop isSum a b) = psub a' a /\ psub (mop isSum a' b') (mop isSum a b') = psub a' a /\
+    psub (mop isSum a b') (mop isSum a b) = pdir isSum (b, b') /\ psub (mop isSum a' b') (mop isSum a' b) = pdir isSum (b, b') /\
+    area2 q = 2 * vcross (psub a' a) (pdir isSum (b, b')).
+Proof. exact para_quads_parallelogram. Qed.
+Print Assumptions C19_quad_is_parallelogram.
+
+(* binary64 Area is exact for |coordinates| <= 2^24: the orientation test is the exact one ... *)
+Theorem C19_orientation_exact :
+  forall isSum isClosed pat pth P,
+  coords_le (2 ^ 24) pat -> coords_le (2 ^ 24) pth -> In P (para_quads isSum isClosed pat pth) ->
+  orient4 P = if 0 <=? area2 P then P else rev P.
+Proof. exact orient4_exact. Qed.
+Print Assumptions C19_orientation_exact.
+
+(* ... and every emitted quad has non-negative exact area *)
+Theorem C19_quads_positive :
+  forall pat pth isSum isClosed quads,
+  coords_le (2 ^ 24) pat -> coords_le (2 ^ 24) pth ->
+  minkowski pat pth isSum isClosed = MOk quads -> forall q, In q quads -> 0 <= area2 q.
+Proof. exact minkowski_quads_positive. Qed.
+Print Assumptions C19_quads_positive.
+
+(* the statement without a coordinate bound is false of the faithful model (witness within 2^27; replayed on the
+   real code by checks/C19.py): a thin quad of exact twice-area -2 whose binary64 Area is >= 0 *)
+Theorem C19_quads_positive_unbounded_refuted :
+  exists pat pth quads q,
+    coords_le (2 ^ 27) pat /\ coords_le (2 ^ 27) pth /\
+    minkowski pat pth true false = MOk quads /\ In q quads /\ area2 q < 0.
+Proof. exact quads_positive_fails_beyond. Qed.
+Print Assumptions C19_quads_positive_unbounded_refuted.
+
+(* empty pattern or path: no quads (and the specification has no parallelogram) *)
+Theorem C19_empty :
+  forall pat pth isSum isClosed, pat = [] \/ pth = [] ->
+  minkowski pat pth isSum isClosed = MOk [] /\ para_quads isSum isClosed pat pth = [].
+Proof. exact minkowski_empty. Qed.
+Print Assumptions C19_empty.
+
+(* the bounds-checked, fuelled model never fails: no tmp[g][h] read is out of range, both loops terminate *)
+Theorem C19_accesses_in_bounds :
+  forall pat pth isSum isClosed, exists quads, minkowski pat pth isSum isClosed = MOk quads.
+Proof. exact minkowski_no_error. Qed.
+Print Assumptions C19_accesses_in_bounds.
+
+(* no int64 operation of the run overflows for |coordinates| <= 2^60 (the property's bound is 2^40) *)
+Theorem C19_no_overflow :
+  forall pat pth isSum isClosed,
+  coords_le (2 ^ 60) pat -> coords_le (2 ^ 60) pth -> minkowski_ub_free pat pth isSum isClosed = true.
+Proof. exact minkowski_ub_free_bound. Qed.
+Print Assumptions C19_no_overflow.
+
+(* soundness of the extracted sample checker: result paths outk, sample points ptsk and the tolerance tn/td are
+   given in coordinates scaled by k (k = 2: half-integer sample points; k = 2 * 2^j: the dyadic coordinates of a
+   PathD result, exactly); the parallelograms are scaled by k inside *)
+Theorem C19_checker_sound :
+  forall pat pth isSum isClosed k tn td outk ptsk ev,
+  check_minkowski pat pth isSum isClosed k tn td outk ptsk = MOk ev -> mink_fails ev = [] ->
+  forall q, In q ptsk ->
+  far_from tn td (edges_closed (scalek k (map orient4 (para_quads isSum isClosed pat pth)))) q = true ->
+  (wn_paths outk q <> 0 <-> in_some (scalek k (para_quads isSum isClosed pat pth)) q = true)
+  /\ (in_some (scalek k (para_quads isSum isClosed pat pth)) q = true -> wn_paths outk q = 1).
+Proof. exact check_minkowski_sound. Qed.
+Print Assumptions C19_checker_sound.
+
+(* What is proved about MinkowskiSum/MinkowskiDiff as a whole.  PARTIAL: the missing link is
+   "detail::Union(quads, NonZero) is the NonZero union of the quads within 2 units" (Clipper64::Execute on massively
+   degenerate input: shared edges and vertices) -- validated through [C19_checker_sound] by sampling, not proved. *)
+Theorem C19_minkowski_partial :
+  forall pat pth isSum isClosed,
+  exists quads,
+    minkowski pat pth isSum isClosed = MOk quads
+    /\ Forall2 (fun q s => q = s \/ q = rev s) quads (para_quads isSum isClosed pat pth)
+    /\ (forall k ptk, in_some (scalek k quads) ptk = in_some (scalek k (para_quads isSum isClosed pat pth)) ptk)
+    /\ (pat = [] \/ pth = [] -> quads = [])
+    /\ (forall k tn td outk ptsk ev,
+          check_minkowski pat pth isSum isClosed k tn td outk ptsk = MOk ev -> mink_fails ev = [] ->
+          forall q, In q ptsk -> far_from tn td (edges_closed (scalek k quads)) q = true ->
+          (wn_paths outk q <> 0 <-> in_some (scalek k (para_quads isSum isClosed pat pth)) q = true)
+          /\ (in_some (scalek k (para_quads isSum isClosed pat pth)) q = true -> wn_paths outk q = 1)).
+Proof. exact minkowski_partial. Qed.
+Print Assumptions C19_minkowski_partial.
